@@ -19,10 +19,10 @@ set_option linter.unusedVariables false
 namespace SkipNet
 open Network Scalar VJP Walk LoopSpec DenseStack LayerChain SkipWalk SkipTable
 
-variable {a m c : Idx} {ea : Enc a} {em : Enc m} {ec : Enc c}
+variable {a m c : Idx} {ea : Enc a} {em : Nat → Enc m} {ec : Enc c}
 
 /-- a model layer with the vector function it realises between vectors of one index type -/
-structure Link (m : Idx) (em : Enc m) where
+structure Link (m : Idx) where
   l : Layer ℝ
   f : V m.T → V m.T
   b : V m.T → V m.T → V m.T
@@ -31,12 +31,27 @@ structure Link (m : Idx) (em : Enc m) where
   wg : V m.T → V m.T → WGrad ℝ × BGrad ℝ
 
 /-- at the processed input `p`, the layer computes its function (forward) and its backward function -/
-def Link.Real (k : Link m em) (p : V m.T) : Prop :=
-  layerForward k.l (em p) = .ok (k.pre p, em (k.f p), k.rc p) ∧
-  ∀ g, layerBackward k.l (em g) (em p) (k.pre p) (.ok (k.rc p)) = .ok (em (k.b p g), (k.wg p g).1, (k.wg p g).2)
+def Link.Real (ein eout : Enc m) (k : Link m) (p : V m.T) : Prop :=
+  layerForward k.l (ein p) = .ok (k.pre p, eout (k.f p), k.rc p) ∧
+  ∀ g, layerBackward k.l (eout g) (ein p) (k.pre p) (.ok (k.rc p)) = .ok (ein (k.b p g), (k.wg p g).1, (k.wg p g).2)
+
+/-- what a connection needs of the encodings at its two ends (`e1` at the target, `e2` at the source): encoded
+    vectors have one shape, reshaping to it changes nothing, adding encoded vectors is adding the vectors — in
+    both directions (forward adds the source to the target, backward the target's gradient to the source's) -/
+structure Compat (e1 e2 : Enc m) : Prop where
+  add12 : ∀ u v, (e1 u).add (e2 v) = .ok (e1 (u + v))
+  add21 : ∀ u v, (e2 u).add (e1 v) = .ok (e2 (u + v))
+  shape : ∀ u v, (e2 u).shape = (e1 v).shape
+  reshape : ∀ u v, (e1 u).reshape (e2 v).shape = .ok (e1 u)
+
+theorem compat_of_encAdd {e : Enc m} (he : EncAdd e) : Compat e e where
+  add12 := he.add
+  add21 := he.add
+  shape := he.shape
+  reshape := he.reshape
 
 /-- the stretch as a `SkipDag.Net`; the table is relative to the stretch: `(target, source)` -/
-def dagNet (body : List (Link m em)) (tbl : List (Nat × Nat)) : SkipDag.Net m.T where
+def dagNet (body : List (Link m)) (tbl : List (Nat × Nat)) : SkipDag.Net m.T where
   f i := match body[i]? with
     | some k => k.f
     | none => fun p => p
@@ -46,16 +61,16 @@ def dagNet (body : List (Link m em)) (tbl : List (Nat × Nat)) : SkipDag.Net m.T
   S i := Assoc.find? tbl i
 
 /-- map with the position -/
-def mapOff {β : Type} (F : Nat → Link m em → β) : Nat → List (Link m em) → List β
+def mapOff {β : Type} (F : Nat → Link m → β) : Nat → List (Link m) → List β
   | _, [] => []
   | k, lk :: rest => F k lk :: mapOff F (k + 1) rest
 
-theorem length_mapOff {β : Type} (F : Nat → Link m em → β) : ∀ (k : Nat) (ls : List (Link m em)),
+theorem length_mapOff {β : Type} (F : Nat → Link m → β) : ∀ (k : Nat) (ls : List (Link m)),
     (mapOff F k ls).length = ls.length
   | _, [] => rfl
   | k, _ :: rest => by simp [mapOff, length_mapOff F (k + 1) rest]
 
-theorem getElem?_mapOff {β : Type} (F : Nat → Link m em → β) : ∀ (k : Nat) (ls : List (Link m em)) (i : Nat),
+theorem getElem?_mapOff {β : Type} (F : Nat → Link m → β) : ∀ (k : Nat) (ls : List (Link m)) (i : Nat),
     (mapOff F k ls)[i]? = ls[i]?.map (F (k + i))
   | _, [], _ => by simp [mapOff]
   | k, lk :: rest, 0 => by simp [mapOff]
@@ -81,19 +96,19 @@ theorem drop_cons {β : Type} (l : List β) (k : Nat) (x : β) (rest : List β) 
     rfl
 
 section
-variable (n : Network ℝ) (h : Nat) (body : List (Link m em)) (tbl : List (Nat × Nat)) (y : V m.T)
+variable (n : Network ℝ) (h : Nat) (body : List (Link m)) (tbl : List (Nat × Nat)) (y : V m.T)
 
-theorem U_step (k : Nat) (lk : Link m em) (hk : body[k]? = some lk) :
+theorem U_step (k : Nat) (lk : Link m) (hk : body[k]? = some lk) :
     SkipDag.U (dagNet body tbl) (k + 1) y = lk.f (SkipDag.P (dagNet body tbl) k y) := by
   rw [SkipDag.U_succ]
   simp only [dagNet, hk]
 
 /-- the input the layer at position `k` of the stretch processes -/
-theorem skipInput_body (hacc : n.skipaccumulation = .add) (he : EncAdd em)
+theorem skipInput_body (hacc : n.skipaccumulation = .add) (hcomp : ∀ t s, Assoc.find? tbl t = some s → Compat (em t) (em s))
     (hsrc : ∀ t s, Assoc.find? tbl t = some s → s ≤ t)
     (k : Nat) (hconn : Assoc.find? n.connect (h + k) = (Assoc.find? tbl k).map (h + ·))
-    (act : List (Tensor ℝ)) (hact : ∀ j, j ≤ k → L.get act (h + j) = .ok (em (SkipDag.U (dagNet body tbl) j y))) :
-    skipInput n act (h + k) = .ok (em (SkipDag.P (dagNet body tbl) k y)) := by
+    (act : List (Tensor ℝ)) (hact : ∀ j, j ≤ k → L.get act (h + j) = .ok (em j (SkipDag.U (dagNet body tbl) j y))) :
+    skipInput n act (h + k) = .ok (em k (SkipDag.P (dagNet body tbl) k y)) := by
   unfold skipInput
   rw [hact k (Nat.le_refl _), hconn]
   cases hs : Assoc.find? tbl k with
@@ -105,23 +120,23 @@ theorem skipInput_body (hacc : n.skipaccumulation = .add) (he : EncAdd em)
   | some s =>
     have hle := hsrc k s hs
     simp only [Option.map_some, hact s hle]
-    rw [if_neg (by rw [ne_eq, not_not]; exact he.shape _ _)]
-    simp only [hacc, accumulate1, he.add]
+    rw [if_neg (by rw [ne_eq, not_not]; exact (hcomp k s hs).shape _ _)]
+    simp only [hacc, accumulate1, (hcomp k s hs).add12]
     have : SkipDag.P (dagNet body tbl) k y = SkipDag.U (dagNet body tbl) k y + SkipDag.U (dagNet body tbl) s y := by
       simp [SkipDag.P, SkipDag.skipv, dagNet, hs, hle]
     rw [this]
 
 /-- **forward over the stretch** -/
-theorem forward_body (hl : n.loopbacks = []) (hacc : n.skipaccumulation = .add) (he : EncAdd em)
+theorem forward_body (hl : n.loopbacks = []) (hacc : n.skipaccumulation = .add) (hcomp : ∀ t s, Assoc.find? tbl t = some s → Compat (em t) (em s))
     (hsrc : ∀ t s, Assoc.find? tbl t = some s → s ≤ t)
     (hconn : ∀ k, k < body.length → Assoc.find? n.connect (h + k) = (Assoc.find? tbl k).map (h + ·)) :
-    ∀ (ls : List (Link m em)) (k : Nat) (t : Trace ℝ), body.drop k = ls →
+    ∀ (ls : List (Link m)) (k : Nat) (t : Trace ℝ), body.drop k = ls →
       t.act.length = h + k + 1 →
-      (∀ j, j ≤ k → L.get t.act (h + j) = .ok (em (SkipDag.U (dagNet body tbl) j y))) →
-      (∀ i (lk : Link m em), ls[i]? = some lk → lk.Real (SkipDag.P (dagNet body tbl) (k + i) y)) →
+      (∀ j, j ≤ k → L.get t.act (h + j) = .ok (em j (SkipDag.U (dagNet body tbl) j y))) →
+      (∀ i (lk : Link m), ls[i]? = some lk → lk.Real (em (k + i)) (em (k + i + 1)) (SkipDag.P (dagNet body tbl) (k + i) y)) →
       (List.zip (List.range' (h + k) ls.length) (ls.map (·.l))).foldl (forwardLayer n) (.ok t) =
         .ok { pre := t.pre ++ mapOff (fun j lk => lk.pre (SkipDag.P (dagNet body tbl) j y)) k ls,
-              act := t.act ++ mapOff (fun j _ => em (SkipDag.U (dagNet body tbl) (j + 1) y)) k ls,
+              act := t.act ++ mapOff (fun j _ => em (j + 1) (SkipDag.U (dagNet body tbl) (j + 1) y)) k ls,
               recs := t.recs ++ mapOff (fun j lk => lk.rc (SkipDag.P (dagNet body tbl) j y)) k ls }
   | [], k, t, _, _, _, _ => by simp [mapOff]
   | lk :: rest, k, t, hdrop, hlen, hact, hreal => by
@@ -131,11 +146,11 @@ theorem forward_body (hl : n.loopbacks = []) (hacc : n.skipaccumulation = .add) 
       · exact h1
       · rw [List.getElem?_eq_none h1] at hk; cases hk
     simp only [List.length_cons, List.range'_succ, List.map_cons, List.zip_cons_cons, List.foldl_cons]
-    have hin := skipInput_body n h body tbl y hacc he hsrc k (hconn k hkl) t.act hact
+    have hin := skipInput_body n h body tbl y hacc hcomp hsrc k (hconn k hkl) t.act hact
     have hr := hreal 0 lk rfl
     simp only [Nat.add_zero] at hr
     simp only [forwardLayer, hin, hr.1, hl, Assoc.find?]
-    rw [Nat.add_assoc h k 1, forward_body hl hacc he hsrc hconn rest (k + 1) _ hdrop' (by simp [hlen]; omega)
+    rw [Nat.add_assoc h k 1, forward_body hl hacc hcomp hsrc hconn rest (k + 1) _ hdrop' (by simp [hlen]; omega)
       (fun j hj => by
         rcases Nat.lt_or_ge j (k + 1) with h1 | h1
         · have := hact j (by omega)
@@ -165,27 +180,27 @@ def tgs (inv : List (Nat × List Nat)) (h : Nat) (i : Nat) : List Nat :=
   ((Assoc.find? inv (h + i)).getD []).map (· - h)
 
 /-- what a source adds up: its own processed-input gradient plus those of its targets -/
-theorem fold_addSkip (he : EncAdd em) (len h i : Nat) (δ : V m.T) (processed : List (Tensor ℝ)) (D : Nat → V m.T)
+theorem fold_addSkip (len h i : Nat) (δ : V m.T) (processed : List (Tensor ℝ)) (D : Nat → V m.T)
     (hD : D i = δ) :
     ∀ (ts : List Nat) (cur : V m.T),
-    (∀ t ∈ ts, ∃ t', t = h + t' ∧ (t' ≠ i → t ≤ len ∧ L.get processed (len - t) = .ok (em (D t')))) →
-    ts.foldl (addSkipGradient len (h + i) (em δ) processed) (.ok (em cur)) =
-      .ok (em (cur + ((ts.map (· - h)).map D).sum))
+    (∀ t ∈ ts, ∃ t', t = h + t' ∧ Compat (em t') (em i) ∧
+      (t' ≠ i → t ≤ len ∧ L.get processed (len - t) = .ok (em t' (D t')))) →
+    ts.foldl (addSkipGradient len (h + i) (em i δ) processed) (.ok (em i cur)) =
+      .ok (em i (cur + ((ts.map (· - h)).map D).sum))
   | [], cur, _ => by simp
   | t :: rest, cur, hts => by
-    obtain ⟨t', ht, hproc⟩ := hts t (List.mem_cons_self ..)
+    obtain ⟨t', ht, hc, hproc⟩ := hts t (List.mem_cons_self ..)
     subst ht
     simp only [List.foldl_cons, List.map_cons, List.sum_cons, Nat.add_sub_cancel_left]
-    have hstep : addSkipGradient (h + t' + 0 + len - (h + t') - 0 + 0 * 0 + len - len) (h + i) (em δ) processed (.ok (em cur)) (h + t') = .ok (em (cur + D t')) ∨ True := Or.inr trivial
-    have hs : addSkipGradient len (h + i) (em δ) processed (.ok (em cur)) (h + t') = .ok (em (cur + D t')) := by
+    have hs : addSkipGradient len (h + i) (em i δ) processed (.ok (em i cur)) (h + t') = .ok (em i (cur + D t')) := by
       unfold addSkipGradient
       by_cases hti : t' = i
       · subst hti
-        simp only [if_true, he.reshape, he.add, hD]
+        simp only [if_true, hc.reshape, hc.add21, hD]
       · have := hproc hti
         rw [if_neg (by omega)]
-        simp only [checkedSub, if_pos this.1, this.2, he.reshape, he.add]
-    rw [hs, fold_addSkip he len h i δ processed D hD rest (cur + D t')
+        simp only [checkedSub, if_pos this.1, this.2, hc.reshape, hc.add21]
+    rw [hs, fold_addSkip len h i δ processed D hD rest (cur + D t')
       (fun t ht => hts t (List.mem_cons_of_mem _ ht)), add_assoc]
 
 theorem zip_range'_snoc {β : Type} (A : List β) (x : β) (k : Nat) :
@@ -194,7 +209,7 @@ theorem zip_range'_snoc {β : Type} (A : List β) (x : β) (k : Nat) :
   rfl
 
 section
-variable (n : Network ℝ) (h lt : Nat) (body : List (Link m em)) (tbl : List (Nat × Nat)) (y γ : V m.T)
+variable (n : Network ℝ) (h lt : Nat) (body : List (Link m)) (tbl : List (Nat × Nat)) (y γ : V m.T)
   (T : Trace ℝ) (inv : List (Nat × List Nat)) (W0 : List (WGrad ℝ)) (B0 : List (BGrad ℝ)) (G0 : List (Tensor ℝ))
 
 /-- the sweep of `SkipDag` over the stretch -/
@@ -202,20 +217,20 @@ abbrev sw (k : Nat) : V m.T × (Nat → V m.T) :=
   SkipDag.sweep (dagNet body tbl) (tgs inv h) y body.length γ k
 
 /-- the state of the reverse walk after `k` layers of the stretch -/
-def bst : Nat → BackState ℝ
+def bst (em : Nat → Enc m) : Nat → BackState ℝ
   | 0 => (W0, B0, G0, G0)
   | k + 1 =>
-    let s := bst k
+    let s := bst em k
     let i := body.length - (k + 1)
     let Gk := (sw h body tbl y γ inv k).1
     let p := SkipDag.P (dagNet body tbl) i y
     match body[i]? with
     | some lk => (s.1 ++ [(lk.wg p Gk).1], s.2.1 ++ [(lk.wg p Gk).2],
-        s.2.2.1 ++ [em (sw h body tbl y γ inv (k + 1)).1], s.2.2.2 ++ [em (lk.b p Gk)])
+        s.2.2.1 ++ [em i (sw h body tbl y γ inv (k + 1)).1], s.2.2.2 ++ [em i (lk.b p Gk)])
     | none => s
 
-theorem bst_grads_last (hG0 : G0.getLast? = some (em γ)) : ∀ k, k ≤ body.length →
-    (bst h body tbl y γ inv W0 B0 G0 k).2.2.1.getLast? = some (em (sw h body tbl y γ inv k).1)
+theorem bst_grads_last (hG0 : G0.getLast? = some (em body.length γ)) : ∀ k, k ≤ body.length →
+    (bst h body tbl y γ inv W0 B0 G0 em k).2.2.1.getLast? = some (em (body.length - k) (sw h body tbl y γ inv k).1)
   | 0, _ => by simpa [bst, SkipDag.sweep] using hG0
   | k + 1, hk => by
     have hi : body.length - (k + 1) < body.length := by omega
@@ -223,8 +238,8 @@ theorem bst_grads_last (hG0 : G0.getLast? = some (em γ)) : ∀ k, k ≤ body.le
     simp
 
 theorem bst_processed : ∀ k, k ≤ body.length →
-    (bst h body tbl y γ inv W0 B0 G0 k).2.2.2 =
-      G0 ++ (List.range k).map (fun r => em ((sw h body tbl y γ inv (r + 1)).2 (body.length - (r + 1))))
+    (bst h body tbl y γ inv W0 B0 G0 em k).2.2.2 =
+      G0 ++ (List.range k).map (fun r => em (body.length - (r + 1)) ((sw h body tbl y γ inv (r + 1)).2 (body.length - (r + 1))))
   | 0, _ => by simp [bst]
   | k + 1, hk => by
     have hi : body.length - (k + 1) < body.length := by omega
@@ -237,12 +252,12 @@ theorem bst_processed : ∀ k, k ≤ body.length →
     rfl
 
 theorem bst_ws : ∀ k, k ≤ body.length →
-    (bst h body tbl y γ inv W0 B0 G0 k).1.length = W0.length + k ∧
-    (bst h body tbl y γ inv W0 B0 G0 k).2.1.length = B0.length + k ∧
-    ∀ r, r < k → ∀ lk : Link m em, body[body.length - (r + 1)]? = some lk →
-      (bst h body tbl y γ inv W0 B0 G0 k).1[W0.length + r]? =
+    (bst h body tbl y γ inv W0 B0 G0 em k).1.length = W0.length + k ∧
+    (bst h body tbl y γ inv W0 B0 G0 em k).2.1.length = B0.length + k ∧
+    ∀ r, r < k → ∀ lk : Link m, body[body.length - (r + 1)]? = some lk →
+      (bst h body tbl y γ inv W0 B0 G0 em k).1[W0.length + r]? =
         some (lk.wg (SkipDag.P (dagNet body tbl) (body.length - (r + 1)) y) (sw h body tbl y γ inv r).1).1 ∧
-      (bst h body tbl y γ inv W0 B0 G0 k).2.1[B0.length + r]? =
+      (bst h body tbl y γ inv W0 B0 G0 em k).2.1[B0.length + r]? =
         some (lk.wg (SkipDag.P (dagNet body tbl) (body.length - (r + 1)) y) (sw h body tbl y γ inv r).1).2
   | 0, _ => ⟨by simp [bst], by simp [bst], fun r hr => by omega⟩
   | k + 1, hk => by
@@ -262,14 +277,14 @@ theorem bst_ws : ∀ k, k ≤ body.length →
       rw [List.getElem?_append_right (by omega), List.getElem?_append_right (by omega)]
       simp [l1, l2]
 
-theorem sw_D_self' (k : Nat) (lk : Link m em) (hlk : body[body.length - (k + 1)]? = some lk) :
+theorem sw_D_self' (k : Nat) (lk : Link m) (hlk : body[body.length - (k + 1)]? = some lk) :
     (sw h body tbl y γ inv (k + 1)).2 (body.length - (k + 1)) =
       lk.b (SkipDag.P (dagNet body tbl) (body.length - (k + 1)) y) (sw h body tbl y γ inv k).1 := by
   rw [SkipDag.sweep_D_self]
   simp only [dagNet, hlk]
   rfl
 
-theorem sw_fst' (k : Nat) (lk : Link m em) (hlk : body[body.length - (k + 1)]? = some lk) :
+theorem sw_fst' (k : Nat) (lk : Link m) (hlk : body[body.length - (k + 1)]? = some lk) :
     (sw h body tbl y γ inv (k + 1)).1 =
       lk.b (SkipDag.P (dagNet body tbl) (body.length - (k + 1)) y) (sw h body tbl y γ inv k).1 +
         ((((Assoc.find? inv (h + (body.length - (k + 1)))).getD []).map (· - h)).map (sw h body tbl y γ inv (k + 1)).2).sum := by
@@ -278,52 +293,54 @@ theorem sw_fst' (k : Nat) (lk : Link m em) (hlk : body[body.length - (k + 1)]? =
   rfl
 
 /-- **one layer of the stretch in the reverse walk** -/
-theorem back_step (hacc : n.skipaccumulation = .add) (he : EncAdd em)
+theorem back_step (hacc : n.skipaccumulation = .add) (hcomp : ∀ t s, Assoc.find? tbl t = some s → Compat (em t) (em s))
     (hsrc : ∀ t s, Assoc.find? tbl t = some s → s ≤ t)
     (hconn : ∀ k, k < body.length → Assoc.find? n.connect (h + k) = (Assoc.find? tbl k).map (h + ·))
-    (hTact : ∀ j, j ≤ body.length → L.get T.act (h + j) = .ok (em (SkipDag.U (dagNet body tbl) j y)))
-    (hTpre : ∀ j (lk : Link m em), body[j]? = some lk → L.get T.pre (h + j) = .ok (lk.pre (SkipDag.P (dagNet body tbl) j y)))
-    (hTrec : ∀ j (lk : Link m em), body[j]? = some lk → L.get T.recs (h + j) = .ok (lk.rc (SkipDag.P (dagNet body tbl) j y)))
-    (hreal : ∀ j (lk : Link m em), body[j]? = some lk → lk.Real (SkipDag.P (dagNet body tbl) j y))
-    (hlen : n.layers.length = h + body.length + lt) (hG0len : G0.length = lt + 1) (hG0 : G0.getLast? = some (em γ))
-    (hinv : ∀ i, i < body.length → ∀ t ∈ (Assoc.find? inv (h + i)).getD [], ∃ t', t = h + t' ∧ i ≤ t' ∧ t' < body.length)
-    (k : Nat) (hk : k < body.length) (lk : Link m em) (hlk : body[body.length - (k + 1)]? = some lk) :
-    backwardStep n T inv (.ok (bst h body tbl y γ inv W0 B0 G0 k)) (h + (body.length - (k + 1)), lk.l) =
-      .ok (bst h body tbl y γ inv W0 B0 G0 (k + 1)) := by
-  have hlast := bst_grads_last h body tbl y γ inv W0 B0 G0 hG0 k (by omega)
-  have hproc := bst_processed h body tbl y γ inv W0 B0 G0 k (by omega)
+    (hTact : ∀ j, j ≤ body.length → L.get T.act (h + j) = .ok (em j (SkipDag.U (dagNet body tbl) j y)))
+    (hTpre : ∀ j (lk : Link m), body[j]? = some lk → L.get T.pre (h + j) = .ok (lk.pre (SkipDag.P (dagNet body tbl) j y)))
+    (hTrec : ∀ j (lk : Link m), body[j]? = some lk → L.get T.recs (h + j) = .ok (lk.rc (SkipDag.P (dagNet body tbl) j y)))
+    (hreal : ∀ j (lk : Link m), body[j]? = some lk → lk.Real (em j) (em (j + 1)) (SkipDag.P (dagNet body tbl) j y))
+    (hlen : n.layers.length = h + body.length + lt) (hG0len : G0.length = lt + 1) (hG0 : G0.getLast? = some (em body.length γ))
+    (hinv : ∀ i, i < body.length → ∀ t ∈ (Assoc.find? inv (h + i)).getD [], ∃ t', t = h + t' ∧ i ≤ t' ∧ t' < body.length ∧ Assoc.find? tbl t' = some i)
+    (k : Nat) (hk : k < body.length) (lk : Link m) (hlk : body[body.length - (k + 1)]? = some lk) :
+    backwardStep n T inv (.ok (bst h body tbl y γ inv W0 B0 G0 em k)) (h + (body.length - (k + 1)), lk.l) =
+      .ok (bst h body tbl y γ inv W0 B0 G0 em (k + 1)) := by
+  have hlast := bst_grads_last (em := em) h body tbl y γ inv W0 B0 G0 hG0 k (by omega)
+  have hproc := bst_processed (em := em) h body tbl y γ inv W0 B0 G0 k (by omega)
   have hDs := sw_D_self' h body tbl y γ inv k lk hlk
   have hF := sw_fst' h body tbl y γ inv k lk hlk
-  have hnext : bst h body tbl y γ inv W0 B0 G0 (k + 1) =
-      ((bst h body tbl y γ inv W0 B0 G0 k).1 ++
+  have hnext : bst h body tbl y γ inv W0 B0 G0 em (k + 1) =
+      ((bst h body tbl y γ inv W0 B0 G0 em k).1 ++
           [(lk.wg (SkipDag.P (dagNet body tbl) (body.length - (k + 1)) y) (sw h body tbl y γ inv k).1).1],
-       (bst h body tbl y γ inv W0 B0 G0 k).2.1 ++
+       (bst h body tbl y γ inv W0 B0 G0 em k).2.1 ++
           [(lk.wg (SkipDag.P (dagNet body tbl) (body.length - (k + 1)) y) (sw h body tbl y γ inv k).1).2],
-       (bst h body tbl y γ inv W0 B0 G0 k).2.2.1 ++ [em (sw h body tbl y γ inv (k + 1)).1],
-       (bst h body tbl y γ inv W0 B0 G0 k).2.2.2 ++
-          [em (lk.b (SkipDag.P (dagNet body tbl) (body.length - (k + 1)) y) (sw h body tbl y γ inv k).1)]) := by
+       (bst h body tbl y γ inv W0 B0 G0 em k).2.2.1 ++ [em (body.length - (k + 1)) (sw h body tbl y γ inv (k + 1)).1],
+       (bst h body tbl y γ inv W0 B0 G0 em k).2.2.2 ++
+          [em (body.length - (k + 1)) (lk.b (SkipDag.P (dagNet body tbl) (body.length - (k + 1)) y) (sw h body tbl y γ inv k).1)]) := by
     rw [bst]
     simp only [hlk]
   rw [hnext]
   obtain ⟨i, hi⟩ : ∃ i, body.length - (k + 1) = i := ⟨_, rfl⟩
   rw [hi] at hlk hDs hF ⊢
-  rcases hst : bst h body tbl y γ inv W0 B0 G0 k with ⟨wgs, bgs, grads, processed⟩
+  rcases hst : bst h body tbl y γ inv W0 B0 G0 em k with ⟨wgs, bgs, grads, processed⟩
   rw [hst] at hlast hproc
   simp only [] at hlast hproc ⊢
-  have hin := skipInput_body n h body tbl y hacc he hsrc i (hconn i (by omega)) T.act (fun j hj => hTact j (by omega))
+  have hin := skipInput_body n h body tbl y hacc hcomp hsrc i (hconn i (by omega)) T.act (fun j hj => hTact j (by omega))
   have hbw := (hreal i lk hlk).2 (sw h body tbl y γ inv k).1
+  have ek : body.length - k = i + 1 := by omega
+  rw [ek] at hlast
   -- what the source adds up
   have hsum : ∀ ts, (Assoc.find? inv (h + i)).getD [] = ts →
       ts.foldl (addSkipGradient n.layers.length (h + i)
-          (em (lk.b (SkipDag.P (dagNet body tbl) i y) (sw h body tbl y γ inv k).1)) processed)
-        (.ok (em (lk.b (SkipDag.P (dagNet body tbl) i y) (sw h body tbl y γ inv k).1))) =
-        .ok (em (sw h body tbl y γ inv (k + 1)).1) := by
+          (em i (lk.b (SkipDag.P (dagNet body tbl) i y) (sw h body tbl y γ inv k).1)) processed)
+        (.ok (em i (lk.b (SkipDag.P (dagNet body tbl) i y) (sw h body tbl y γ inv k).1))) =
+        .ok (em i (sw h body tbl y γ inv (k + 1)).1) := by
     intro ts hts
-    rw [fold_addSkip he n.layers.length h i _ processed (sw h body tbl y γ inv (k + 1)).2 hDs ts _]
+    rw [fold_addSkip n.layers.length h i _ processed (sw h body tbl y γ inv (k + 1)).2 hDs ts _]
     · rw [hF, hts]
     · intro t ht
-      obtain ⟨t', ht', h1, h2⟩ := hinv i (by omega) t (by rw [hts]; exact ht)
-      refine ⟨t', ht', fun hne => ⟨by omega, ?_⟩⟩
+      obtain ⟨t', ht', h1, h2, h3⟩ := hinv i (by omega) t (by rw [hts]; exact ht)
+      refine ⟨t', ht', hcomp t' i h3, fun hne => ⟨by omega, ?_⟩⟩
       subst ht'
       rw [hproc, get_iff, List.getElem?_append_right (by omega)]
       have hidx : n.layers.length - (h + t') - G0.length = body.length - t' - 1 := by omega
@@ -348,25 +365,25 @@ theorem back_step (hacc : n.skipaccumulation = .add) (he : EncAdd em)
     rw [this]
 
 /-- **the reverse walk over the whole stretch** -/
-theorem back_body (hacc : n.skipaccumulation = .add) (he : EncAdd em)
+theorem back_body (hacc : n.skipaccumulation = .add) (hcomp : ∀ t s, Assoc.find? tbl t = some s → Compat (em t) (em s))
     (hsrc : ∀ t s, Assoc.find? tbl t = some s → s ≤ t)
     (hconn : ∀ k, k < body.length → Assoc.find? n.connect (h + k) = (Assoc.find? tbl k).map (h + ·))
-    (hTact : ∀ j, j ≤ body.length → L.get T.act (h + j) = .ok (em (SkipDag.U (dagNet body tbl) j y)))
-    (hTpre : ∀ j (lk : Link m em), body[j]? = some lk → L.get T.pre (h + j) = .ok (lk.pre (SkipDag.P (dagNet body tbl) j y)))
-    (hTrec : ∀ j (lk : Link m em), body[j]? = some lk → L.get T.recs (h + j) = .ok (lk.rc (SkipDag.P (dagNet body tbl) j y)))
-    (hreal : ∀ j (lk : Link m em), body[j]? = some lk → lk.Real (SkipDag.P (dagNet body tbl) j y))
-    (hlen : n.layers.length = h + body.length + lt) (hG0len : G0.length = lt + 1) (hG0 : G0.getLast? = some (em γ))
-    (hinv : ∀ i, i < body.length → ∀ t ∈ (Assoc.find? inv (h + i)).getD [], ∃ t', t = h + t' ∧ i ≤ t' ∧ t' < body.length) :
+    (hTact : ∀ j, j ≤ body.length → L.get T.act (h + j) = .ok (em j (SkipDag.U (dagNet body tbl) j y)))
+    (hTpre : ∀ j (lk : Link m), body[j]? = some lk → L.get T.pre (h + j) = .ok (lk.pre (SkipDag.P (dagNet body tbl) j y)))
+    (hTrec : ∀ j (lk : Link m), body[j]? = some lk → L.get T.recs (h + j) = .ok (lk.rc (SkipDag.P (dagNet body tbl) j y)))
+    (hreal : ∀ j (lk : Link m), body[j]? = some lk → lk.Real (em j) (em (j + 1)) (SkipDag.P (dagNet body tbl) j y))
+    (hlen : n.layers.length = h + body.length + lt) (hG0len : G0.length = lt + 1) (hG0 : G0.getLast? = some (em body.length γ))
+    (hinv : ∀ i, i < body.length → ∀ t ∈ (Assoc.find? inv (h + i)).getD [], ∃ t', t = h + t' ∧ i ≤ t' ∧ t' < body.length ∧ Assoc.find? tbl t' = some i) :
     ∀ j, j ≤ body.length →
       (List.zip (List.range' h ((body.take j).map (·.l)).length) ((body.take j).map (·.l))).reverse.foldl (backwardStep n T inv)
-        (.ok (bst h body tbl y γ inv W0 B0 G0 (body.length - j))) = .ok (bst h body tbl y γ inv W0 B0 G0 body.length)
+        (.ok (bst h body tbl y γ inv W0 B0 G0 em (body.length - j))) = .ok (bst h body tbl y γ inv W0 B0 G0 em body.length)
   | 0, _ => by simp
   | j + 1, hj => by
     have hjl : j < body.length := by omega
     have hlk : body[body.length - (body.length - (j + 1) + 1)]? = some body[j] := by
       have : body.length - (body.length - (j + 1) + 1) = j := by omega
       rw [this, List.getElem?_eq_getElem hjl]
-    have hstep := back_step n h lt body tbl y γ T inv W0 B0 G0 hacc he hsrc hconn hTact hTpre hTrec hreal hlen hG0len hG0 hinv
+    have hstep := back_step n h lt body tbl y γ T inv W0 B0 G0 hacc hcomp hsrc hconn hTact hTpre hTrec hreal hlen hG0len hG0 hinv
       (body.length - (j + 1)) (by omega) body[j] hlk
     have e1 : body.length - (body.length - (j + 1) + 1) = j := by omega
     have e2 : body.length - (j + 1) + 1 = body.length - j := by omega
@@ -374,7 +391,7 @@ theorem back_body (hacc : n.skipaccumulation = .add) (he : EncAdd em)
     have hlenj : ((body.take j).map (·.l)).length = j := by simp; omega
     rw [List.take_succ_eq_append_getElem hjl, List.map_append, List.map_cons, List.map_nil, zip_range'_snoc, List.reverse_append,
       List.reverse_cons, List.reverse_nil, List.nil_append, List.singleton_append, List.foldl_cons, hlenj, hstep]
-    have := back_body hacc he hsrc hconn hTact hTpre hTrec hreal hlen hG0len hG0 hinv j (by omega)
+    have := back_body hacc hcomp hsrc hconn hTact hTpre hTrec hreal hlen hG0len hG0 hinv j (by omega)
     rw [hlenj] at this
     exact this
 
@@ -395,21 +412,21 @@ theorem find?_shift (h : Nat) : ∀ (tbl : List (Nat × Nat)) (k : Nat),
     · subst htk; simp
     · rw [if_neg (by omega), if_neg htk]; exact find?_shift h rest k
 
-theorem getLast?_mapOff (F : Nat → V m.T) : ∀ (ls : List (Link m em)) (k : Nat) (A : List (Tensor ℝ)),
-    A.getLast? = some (em (F k)) →
-    (A ++ mapOff (fun j _ => em (F (j + 1))) k ls).getLast? = some (em (F (k + ls.length)))
+theorem getLast?_mapOff (F : Nat → V m.T) : ∀ (ls : List (Link m)) (k : Nat) (A : List (Tensor ℝ)),
+    A.getLast? = some (em k (F k)) →
+    (A ++ mapOff (fun j _ => em (j + 1) (F (j + 1))) k ls).getLast? = some (em (k + ls.length) (F (k + ls.length)))
   | [], k, A, hA => by simpa [mapOff] using hA
   | lk :: rest, k, A, hA => by
     simp only [mapOff]
-    have := getLast?_mapOff F rest (k + 1) (A ++ [em (F (k + 1))]) (by simp)
+    have := getLast?_mapOff F rest (k + 1) (A ++ [em (k + 1) (F (k + 1))]) (by simp)
     simp only [List.append_assoc, List.singleton_append] at this
     rw [this]
     simp only [List.length_cons]
-    congr 3
-    omega
+    have e : k + 1 + rest.length = k + (rest.length + 1) := by omega
+    rw [e]
 
 section
-variable (head : Chain a ea m em) (body : List (Link m em)) (tbl : List (Nat × Nat)) (tail : Chain m em c ec)
+variable (head : Chain a ea m (em 0)) (body : List (Link m)) (tbl : List (Nat × Nat)) (tail : Chain m (em body.length) c ec)
 
 /-- the network function -/
 def dagFn (x : V a.T) : V c.T :=
@@ -420,7 +437,7 @@ def dagTrace (x : V a.T) : Trace ℝ :=
   let y := (gnet head).fwd x
   let z := SkipDag.U (dagNet body tbl) body.length y
   { pre := pres head x ++ mapOff (fun j lk => lk.pre (SkipDag.P (dagNet body tbl) j y)) 0 body ++ pres tail z,
-    act := (ea x :: acts head x) ++ mapOff (fun j _ => em (SkipDag.U (dagNet body tbl) (j + 1) y)) 0 body ++ acts tail z,
+    act := (ea x :: acts head x) ++ mapOff (fun j _ => em (j + 1) (SkipDag.U (dagNet body tbl) (j + 1) y)) 0 body ++ acts tail z,
     recs := recs head x ++ mapOff (fun j lk => lk.rc (SkipDag.P (dagNet body tbl) j y)) 0 body ++ recs tail z }
 
 /-- the network: `head`, the stretch with its table of additive skip connections, `tail`; no loop
@@ -457,9 +474,9 @@ theorem IsDagNet.find_out {n : Network ℝ} (hn : IsDagNet head body tbl tail n)
 variable (head body tbl tail)
 
 /-- **forward**: every layer of the stretch processes its ordinary input plus the input of its source -/
-theorem forward_dag (n : Network ℝ) (hn : IsDagNet head body tbl tail n) (he : EncAdd em) (x : V a.T)
+theorem forward_dag (n : Network ℝ) (hn : IsDagNet head body tbl tail n) (hcomp : ∀ t s, Assoc.find? tbl t = some s → Compat (em t) (em s)) (x : V a.T)
     (hrh : Real head x)
-    (hrb : ∀ j (lk : Link m em), body[j]? = some lk → lk.Real (SkipDag.P (dagNet body tbl) j ((gnet head).fwd x)))
+    (hrb : ∀ j (lk : Link m), body[j]? = some lk → lk.Real (em j) (em (j + 1)) (SkipDag.P (dagNet body tbl) j ((gnet head).fwd x)))
     (hrt : Real tail (SkipDag.U (dagNet body tbl) body.length ((gnet head).fwd x))) :
     n.forward (ea x) = .ok (dagTrace head body tbl tail x) := by
   set y := (gnet head).fwd x with hy
@@ -474,7 +491,7 @@ theorem forward_dag (n : Network ℝ) (hn : IsDagNet head body tbl tail n) (he :
   simp only [List.nil_append, Nat.zero_add]
   -- the stretch
   have hU0 : SkipDag.U (dagNet body tbl) 0 y = y := by rw [SkipDag.U]
-  have hb := forward_body n h body tbl y hn.loopbacks hn.acc he hn.src (fun k _ => hn.find_in k) body 0
+  have hb := forward_body n h body tbl y hn.loopbacks hn.acc hcomp hn.src (fun k _ => hn.find_in k) body 0
     { pre := pres head x, act := [ea x] ++ acts head x, recs := recs head x } rfl (by simp [hlh.2.1])
     (fun j hj => by
       have : j = 0 := by omega
@@ -485,13 +502,13 @@ theorem forward_dag (n : Network ℝ) (hn : IsDagNet head body tbl tail n) (he :
   simp only [Nat.add_zero, List.length_map] at hb ⊢
   rw [hb]
   -- the tail
-  have hlast : ([ea x] ++ acts head x ++ mapOff (fun j _ => em (SkipDag.U (dagNet body tbl) (j + 1) y)) 0 body).getLast? =
-      some (em z) := by
+  have hlast : ([ea x] ++ acts head x ++ mapOff (fun j _ => em (j + 1) (SkipDag.U (dagNet body tbl) (j + 1) y)) 0 body).getLast? =
+      some (em body.length z) := by
     have := getLast?_mapOff (fun j => SkipDag.U (dagNet body tbl) j y) body 0 ([ea x] ++ acts head x)
       (by rw [hU0]; simpa using acts_last head x)
     simpa using this
   have hlen2 : (LayerChain.layers head ++ List.map (fun x => x.l) body).length = h + body.length := by simp [hh]
-  rw [hlen2, forward_free n hn.loopbacks (LayerChain.layers tail) (h + body.length) _ (em z) hlast
+  rw [hlen2, forward_free n hn.loopbacks (LayerChain.layers tail) (h + body.length) _ (em body.length z) hlast
     (by simp [hlh.2.1, length_mapOff]; try omega)
     (fun i h1 _ => hn.find_out i (Or.inr h1)), LayerChain.forward_fold tail z hrt]
   simp [dagTrace, List.append_assoc, hy, hz]
@@ -534,13 +551,13 @@ theorem allGrads_length : ∀ {a : Idx} {ea : Enc a} {c : Idx} {ec : Enc c} (ch 
   | _, _, _, _, .cons _ f _ _ _ _ rest, x, g => by simp [allGrads, LayerChain.layers, allGrads_length rest (f x) g]
 
 /-- **backward**: the reverse walk over the recorded trace performs the sweep and ends in `dagBwd` -/
-theorem backward_dag (n : Network ℝ) (hn : IsDagNet head body tbl tail n) (he : EncAdd em) (x : V a.T) (g : V c.T)
+theorem backward_dag (n : Network ℝ) (hn : IsDagNet head body tbl tail n) (hcomp : ∀ t s, Assoc.find? tbl t = some s → Compat (em t) (em s)) (x : V a.T) (g : V c.T)
     (hrh : Real head x)
-    (hrb : ∀ j (lk : Link m em), body[j]? = some lk → lk.Real (SkipDag.P (dagNet body tbl) j ((gnet head).fwd x)))
+    (hrb : ∀ j (lk : Link m), body[j]? = some lk → lk.Real (em j) (em (j + 1)) (SkipDag.P (dagNet body tbl) j ((gnet head).fwd x)))
     (hrt : Real tail (SkipDag.U (dagNet body tbl) body.length ((gnet head).fwd x))) :
     ∃ ws bs gs, n.backward (ec g) (dagTrace head body tbl tail x) = .ok (ws, bs, gs) ∧
       gs.getLast? = some (ea (dagBwd head body tbl tail x g)) ∧
-      ∀ r (lk : Link m em), r < body.length → body[body.length - (r + 1)]? = some lk →
+      ∀ r (lk : Link m), r < body.length → body[body.length - (r + 1)]? = some lk →
         ws[(LayerChain.layers tail).length + r]? =
           some (lk.wg (SkipDag.P (dagNet body tbl) (body.length - (r + 1)) ((gnet head).fwd x))
             (handedTo head body tbl tail x g r)).1 ∧
@@ -557,16 +574,16 @@ theorem backward_dag (n : Network ℝ) (hn : IsDagNet head body tbl tail n) (he 
   set inv := invertSkips n.connect with hinvdef
   have hU0 : SkipDag.U (dagNet body tbl) 0 y = y := by rw [SkipDag.U]
   -- the recorded trace
-  have hTact : T.act = (ea x :: acts head x) ++ mapOff (fun j _ => em (SkipDag.U (dagNet body tbl) (j + 1) y)) 0 body ++ acts tail z := rfl
+  have hTact : T.act = (ea x :: acts head x) ++ mapOff (fun j _ => em (j + 1) (SkipDag.U (dagNet body tbl) (j + 1) y)) 0 body ++ acts tail z := rfl
   have hTpre : T.pre = pres head x ++ mapOff (fun j lk => lk.pre (SkipDag.P (dagNet body tbl) j y)) 0 body ++ pres tail z := rfl
   have hTrec : T.recs = recs head x ++ mapOff (fun j lk => lk.rc (SkipDag.P (dagNet body tbl) j y)) 0 body ++ recs tail z := rfl
-  have hact : ∀ j, j ≤ body.length → L.get T.act (h + j) = .ok (em (SkipDag.U (dagNet body tbl) j y)) := by
+  have hact : ∀ j, j ≤ body.length → L.get T.act (h + j) = .ok (em j (SkipDag.U (dagNet body tbl) j y)) := by
     intro j hj
     rw [get_iff, hTact]
     rcases Nat.eq_zero_or_pos j with h0 | hpos
     · subst h0
       rw [List.append_assoc, List.getElem?_append_left (by simp [hlh.2.1])]
-      have := FeedbackSpec.get_last (ea x :: acts head x) (em y) h (by simp [hlh.2.1]) (acts_last head x)
+      have := FeedbackSpec.get_last (ea x :: acts head x) (em 0 y) h (by simp [hlh.2.1]) (acts_last head x)
       rw [get_iff] at this
       rw [hU0]
       exact this
@@ -575,9 +592,9 @@ theorem backward_dag (n : Network ℝ) (hn : IsDagNet head body tbl tail n) (he 
       have e1 : h + j - (ea x :: acts head x).length = j - 1 := by simp [hlh.2.1]; omega
       rw [e1, List.getElem?_eq_getElem (by omega : j - 1 < body.length)]
       simp only [Option.map_some, Nat.zero_add]
-      congr 3
-      omega
-  have hpre : ∀ j (lk : Link m em), body[j]? = some lk → L.get T.pre (h + j) = .ok (lk.pre (SkipDag.P (dagNet body tbl) j y)) := by
+      have ej : j - 1 + 1 = j := by omega
+      rw [ej]
+  have hpre : ∀ j (lk : Link m), body[j]? = some lk → L.get T.pre (h + j) = .ok (lk.pre (SkipDag.P (dagNet body tbl) j y)) := by
     intro j lk hlk
     have hj : j < body.length := by
       rcases Nat.lt_or_ge j body.length with h1 | h1
@@ -588,7 +605,7 @@ theorem backward_dag (n : Network ℝ) (hn : IsDagNet head body tbl tail n) (he 
     have e1 : h + j - (pres head x).length = j := by simp [hlh.1]
     rw [e1, hlk]
     simp
-  have hrec : ∀ j (lk : Link m em), body[j]? = some lk → L.get T.recs (h + j) = .ok (lk.rc (SkipDag.P (dagNet body tbl) j y)) := by
+  have hrec : ∀ j (lk : Link m), body[j]? = some lk → L.get T.recs (h + j) = .ok (lk.rc (SkipDag.P (dagNet body tbl) j y)) := by
     intro j lk hlk
     have hj : j < body.length := by
       rcases Nat.lt_or_ge j body.length with h1 | h1
@@ -611,13 +628,17 @@ theorem backward_dag (n : Network ℝ) (hn : IsDagNet head body tbl tail n) (he 
     have := hn.bounds e0 he0
     simp only
     omega
-  have hinv_in : ∀ i, i < body.length → ∀ t ∈ (Assoc.find? inv (h + i)).getD [], ∃ t', t = h + t' ∧ i ≤ t' ∧ t' < body.length := by
+  have hinv_in : ∀ i, i < body.length → ∀ t ∈ (Assoc.find? inv (h + i)).getD [], ∃ t', t = h + t' ∧ i ≤ t' ∧ t' < body.length ∧
+      Assoc.find? tbl t' = some i := by
     intro i hi t ht
     rw [hinvdef, invert_mem, hn.connect] at ht
     simp only [List.mem_map, shift, Prod.mk.injEq] at ht
     obtain ⟨e0, he0, h1, h2⟩ := ht
     have := hn.bounds e0 he0
-    exact ⟨e0.1, h1.symm, by omega, this.2⟩
+    have h2' : e0.2 = i := by omega
+    refine ⟨e0.1, h1.symm, by omega, this.2, ?_⟩
+    rw [← h2']
+    exact mem_find? tbl hn.keys e0.1 e0.2 he0
   have hNlen : n.layers.length = h + body.length + lt := by
     rw [hn.layers]; simp [hh, hlt']; omega
   -- the reversed position list in three stretches
@@ -636,7 +657,7 @@ theorem backward_dag (n : Network ℝ) (hn : IsDagNet head body tbl tail n) (he 
     exact this
   -- 1. the tail
   set γ := (gnet tail).bwd z g with hγ
-  have hl : ((ea x :: acts head x) ++ mapOff (fun j _ => em (SkipDag.U (dagNet body tbl) (j + 1) y)) 0 body).getLast? = some (em z) := by
+  have hl : ((ea x :: acts head x) ++ mapOff (fun j _ => em (j + 1) (SkipDag.U (dagNet body tbl) (j + 1) y)) 0 body).getLast? = some (em body.length z) := by
     have := getLast?_mapOff (fun j => SkipDag.U (dagNet body tbl) j y) body 0 (ea x :: acts head x)
       (by rw [hU0]; exact acts_last head x)
     simpa using this
@@ -659,34 +680,34 @@ theorem backward_dag (n : Network ℝ) (hn : IsDagNet head body tbl tail n) (he 
   simp only [onState, List.nil_append] at hstep1
   -- 2. the stretch
   have hG0len : ([ec g] ++ gs1).length = lt + 1 := by simp [h13]; omega
-  have hG0 : ([ec g] ++ gs1).getLast? = some (em γ) := by
-    have := getLast?_of_getD gs1 (ec g) (em γ) [] h12
+  have hG0 : ([ec g] ++ gs1).getLast? = some (em body.length γ) := by
+    have := getLast?_of_getD gs1 (ec g) (em body.length γ) [] h12
     simpa using this
-  have hbody := back_body n h lt body tbl y γ T inv ws1 bs1 ([ec g] ++ gs1) hn.acc he hn.src (fun k _ => hn.find_in k)
+  have hbody := back_body n h lt body tbl y γ T inv ws1 bs1 ([ec g] ++ gs1) hn.acc hcomp hn.src (fun k _ => hn.find_in k)
     hact hpre hrec hrb hNlen hG0len hG0 hinv_in body.length (Nat.le_refl _)
   rw [Nat.sub_self] at hbody
-  have hb0 : bst h body tbl y γ inv ws1 bs1 ([ec g] ++ gs1) 0 = (ws1, bs1, [ec g] ++ gs1, [ec g] ++ gs1) := rfl
+  have hb0 : bst h body tbl y γ inv ws1 bs1 ([ec g] ++ gs1) em 0 = (ws1, bs1, [ec g] ++ gs1, [ec g] ++ gs1) := rfl
   rw [hb0] at hbody
   -- 3. the head
-  have hlastN := bst_grads_last h body tbl y γ inv ws1 bs1 ([ec g] ++ gs1) hG0 body.length (Nat.le_refl _)
-  rcases hS : bst h body tbl y γ inv ws1 bs1 ([ec g] ++ gs1) body.length with ⟨wsN, bsN, gradsN, procN⟩
+  have hlastN := bst_grads_last (em := em) h body tbl y γ inv ws1 bs1 ([ec g] ++ gs1) hG0 body.length (Nat.le_refl _)
+  rcases hS : bst h body tbl y γ inv ws1 bs1 ([ec g] ++ gs1) em body.length with ⟨wsN, bsN, gradsN, procN⟩
   rw [hS] at hlastN hbody
-  simp only [] at hlastN
+  simp only [Nat.sub_self] at hlastN
   set σ := (sw h body tbl y γ inv body.length).1 with hσ
   obtain ⟨ws5, bs5, gs5, h51, h52, h53, _⟩ := back_walk head x σ 0 T [] [] []
-    (mapOff (fun j _ => em (SkipDag.U (dagNet body tbl) (j + 1) y)) 0 body ++ acts tail z)
+    (mapOff (fun j _ => em (j + 1) (SkipDag.U (dagNet body tbl) (j + 1) y)) 0 body ++ acts tail z)
     (mapOff (fun j lk => lk.pre (SkipDag.P (dagNet body tbl) j y)) 0 body ++ pres tail z)
     (mapOff (fun j lk => lk.rc (SkipDag.P (dagNet body tbl) j y)) 0 body ++ recs tail z) hrh rfl rfl rfl
     (by rw [hTact]; simp) (by rw [hTpre]; simp) (by rw [hTrec]; simp)
   have hstep5 := back_free n T inv
-    (List.zip (List.range' 0 h) (LayerChain.layers head)).reverse wsN bsN gradsN procN (em σ) hlastN
+    (List.zip (List.range' 0 h) (LayerChain.layers head)).reverse wsN bsN gradsN procN (em 0 σ) hlastN
     (fun il hil => by
       have := hmemzip _ _ _ il hil
       exact ⟨hconn_out il.1 (Or.inl (by omega)), hinv_out il.1 (Or.inl (by omega))⟩)
   rw [h51] at hstep5
   simp only [onState] at hstep5
   -- assemble
-  have hws := bst_ws h body tbl y γ inv ws1 bs1 ([ec g] ++ gs1) body.length (Nat.le_refl _)
+  have hws := bst_ws (em := em) h body tbl y γ inv ws1 bs1 ([ec g] ++ gs1) body.length (Nat.le_refl _)
   rw [hS] at hws
   simp only [] at hws
   have hl1 : ws1.length = lt := by rw [h15, List.length_map, allGrads_length]
@@ -695,7 +716,7 @@ theorem backward_dag (n : Network ℝ) (hn : IsDagNet head body tbl tail n) (he 
   · unfold Network.backward
     rw [← hinvdef, hzip]
     simp only [List.foldl_append, hstep1, hbody, hstep5]
-  · rw [getLast?_append_getD gradsN gs5 (em σ) _ hlastN h52]
+  · rw [getLast?_append_getD gradsN gs5 (em 0 σ) _ hlastN h52]
     simp only [dagBwd, hσ, hγ, hy, hz, hinvdef, hn.connect, hh]
   · intro r lk hr hlk
     obtain ⟨e1, e2⟩ := hws.2.2 r hr lk hlk
@@ -752,7 +773,7 @@ theorem dag_targets (n : Network ℝ) (hn : IsDagNet head body tbl tail n) :
 
 /-- the reverse-mode function is the transposed Jacobian of the network function -/
 theorem dag_isVJP (n : Network ℝ) (hn : IsDagNet head body tbl tail n) (x : V a.T) (hh : (gnet head).Ok x)
-    (hb : ∀ j (lk : Link m em), body[j]? = some lk →
+    (hb : ∀ j (lk : Link m), body[j]? = some lk →
       IsVJP lk.f (SkipDag.P (dagNet body tbl) j ((gnet head).fwd x)) (lk.b (SkipDag.P (dagNet body tbl) j ((gnet head).fwd x))))
     (ht : (gnet tail).Ok (SkipDag.U (dagNet body tbl) body.length ((gnet head).fwd x))) :
     IsVJP (dagFn head body tbl tail) x (dagBwd head body tbl tail x) := by
@@ -773,12 +794,12 @@ theorem dag_isVJP (n : Network ℝ) (hn : IsDagNet head body tbl tail n) (x : V 
 /-- **a network with any table of additive skip connections among layers of one shape, end to end on the
     model's own folds**: forward ends in the network function's value; the last gradient backward hands on is
     the gradient of the objective with respect to the network input -/
-theorem dag_network_gradient (n : Network ℝ) (hn : IsDagNet head body tbl tail n) (he : EncAdd em) (x : V a.T)
+theorem dag_network_gradient (n : Network ℝ) (hn : IsDagNet head body tbl tail n) (hcomp : ∀ t s, Assoc.find? tbl t = some s → Compat (em t) (em s)) (x : V a.T)
     (hrh : Real head x)
-    (hrb : ∀ j (lk : Link m em), body[j]? = some lk → lk.Real (SkipDag.P (dagNet body tbl) j ((gnet head).fwd x)))
+    (hrb : ∀ j (lk : Link m), body[j]? = some lk → lk.Real (em j) (em (j + 1)) (SkipDag.P (dagNet body tbl) j ((gnet head).fwd x)))
     (hrt : Real tail (SkipDag.U (dagNet body tbl) body.length ((gnet head).fwd x)))
     (hh : (gnet head).Ok x)
-    (hb : ∀ j (lk : Link m em), body[j]? = some lk →
+    (hb : ∀ j (lk : Link m), body[j]? = some lk →
       IsVJP lk.f (SkipDag.P (dagNet body tbl) j ((gnet head).fwd x)) (lk.b (SkipDag.P (dagNet body tbl) j ((gnet head).fwd x))))
     (ht : (gnet tail).Ok (SkipDag.U (dagNet body tbl) body.length ((gnet head).fwd x)))
     (ℓ : V c.T → ℝ) (g : V c.T) (hg : IsGrad ℓ (dagFn head body tbl tail x) g) :
@@ -786,19 +807,19 @@ theorem dag_network_gradient (n : Network ℝ) (hn : IsDagNet head body tbl tail
       n.forward (ea x) = .ok t ∧ t.act.getLast? = some (ec (dagFn head body tbl tail x)) ∧
       n.backward (ec g) t = .ok (ws, bs, gs) ∧ gs.getLast? = some (ea γ) ∧
       IsGrad (ℓ ∘ dagFn head body tbl tail) x γ ∧
-      ∀ r (lk : Link m em), r < body.length → body[body.length - (r + 1)]? = some lk →
+      ∀ r (lk : Link m), r < body.length → body[body.length - (r + 1)]? = some lk →
         ws[(LayerChain.layers tail).length + r]? =
           some (lk.wg (SkipDag.P (dagNet body tbl) (body.length - (r + 1)) ((gnet head).fwd x))
             (handedTo head body tbl tail x g r)).1 ∧
         bs[(LayerChain.layers tail).length + r]? =
           some (lk.wg (SkipDag.P (dagNet body tbl) (body.length - (r + 1)) ((gnet head).fwd x))
             (handedTo head body tbl tail x g r)).2 := by
-  obtain ⟨ws, bs, gs, hbk, hl, hw⟩ := backward_dag head body tbl tail n hn he x g hrh hrb hrt
-  refine ⟨_, ws, bs, gs, _, forward_dag head body tbl tail n hn he x hrh hrb hrt, ?_, hbk, hl,
+  obtain ⟨ws, bs, gs, hbk, hl, hw⟩ := backward_dag head body tbl tail n hn hcomp x g hrh hrb hrt
+  refine ⟨_, ws, bs, gs, _, forward_dag head body tbl tail n hn hcomp x hrh hrb hrt, ?_, hbk, hl,
     IsGrad.comp_vjp (dag_isVJP head body tbl tail n hn x hh hb ht) hg, hw⟩
   have hU0 : SkipDag.U (dagNet body tbl) 0 ((gnet head).fwd x) = (gnet head).fwd x := by rw [SkipDag.U]
-  have hl1 : ((ea x :: acts head x) ++ mapOff (fun j _ => em (SkipDag.U (dagNet body tbl) (j + 1) ((gnet head).fwd x))) 0 body).getLast? =
-      some (em (SkipDag.U (dagNet body tbl) body.length ((gnet head).fwd x))) := by
+  have hl1 : ((ea x :: acts head x) ++ mapOff (fun j _ => em (j + 1) (SkipDag.U (dagNet body tbl) (j + 1) ((gnet head).fwd x))) 0 body).getLast? =
+      some (em body.length (SkipDag.U (dagNet body tbl) body.length ((gnet head).fwd x))) := by
     have := getLast?_mapOff (fun j => SkipDag.U (dagNet body tbl) j ((gnet head).fwd x)) body 0 (ea x :: acts head x)
       (by rw [hU0]; exact acts_last head x)
     simpa using this
@@ -817,10 +838,10 @@ def dagParamFn {π : Type} (c' : Nat) (lay : V π → V m.T) (bθ : V m.T → V 
 /-- **the weight gradient of a layer of the stretch**: the layer's parameter-VJP applied to the gradient the
     reverse walk hands to it is the gradient of the objective with respect to that layer's parameters -/
 theorem dag_parameter_gradient {π : Type} [Fintype π] (n : Network ℝ) (hn : IsDagNet head body tbl tail n) (x : V a.T)
-    (hb : ∀ j (lk : Link m em), body[j]? = some lk →
+    (hb : ∀ j (lk : Link m), body[j]? = some lk →
       IsVJP lk.f (SkipDag.P (dagNet body tbl) j ((gnet head).fwd x)) (lk.b (SkipDag.P (dagNet body tbl) j ((gnet head).fwd x))))
     (ht : (gnet tail).Ok (SkipDag.U (dagNet body tbl) body.length ((gnet head).fwd x)))
-    (c' : Nat) (hc : c' < body.length) (lk : Link m em) (hlk : body[c']? = some lk)
+    (c' : Nat) (hc : c' < body.length) (lk : Link m) (hlk : body[c']? = some lk)
     (lay : V π → V m.T) (bθ : V m.T → V π) (θ₀ : V π)
     (hlay : lay θ₀ = lk.f (SkipDag.P (dagNet body tbl) c' ((gnet head).fwd x))) (hθ : IsVJP lay θ₀ bθ)
     (ℓ : V c.T → ℝ) (g : V c.T) (hg : IsGrad ℓ (dagFn head body tbl tail x) g) :
